@@ -122,3 +122,8 @@ package route
 //@   ensures[msgpack-timestamp-is-the-instant] b.MsgPackTimestamp != nil ==> result == *b.MsgPackTimestamp
 //@   ensures[otherwise-the-time-field] b.MsgPackTimestamp == nil ==> result == getEventTime(b.Timestamp)
 //@   modifies nothing
+
+// ---- C28: panic-freedom of request-parsing helpers, for every input
+//@ contract route.getEventTime#safety props C28
+//@   arith wraps
+//@   modifies nothing
